@@ -14,7 +14,7 @@ PREFIX = "_DJC_INJECT__"
 # 1. Recorder
 # ================================================================================================
 class Node:
-    __slots__ = ("kind", "id", "key", "payload", "root", "vis", "inj", "children", "cname", "results", "extract")
+    __slots__ = ("kind", "id", "key", "payload", "root", "vis", "inj", "inj2", "registered", "children", "cname", "results", "extract")
 
     def __init__(self, kind, id_, **kw):
         self.kind = kind            # "prov" | "comp"
@@ -23,7 +23,9 @@ class Node:
         self.payload = kw.get("payload")
         self.root = kw.get("root")
         self.vis = kw.get("vis", [])
-        self.inj = []               # provide ids looked up by inject() (in call order)
+        self.inj = []               # provide ids looked up by inject() before the component registered (get_context_data)
+        self.inj2 = []              # ... and afterwards (while its template is rendered: on_render_before)
+        self.registered = False
         self.results = []           # (key, "hit", fields-dict | "default" | "KeyError" | "other:<cls>")
         self.cname = kw.get("cname")
         self.extract = kw.get("extract", False)   # provide block rendered while a tag body is scanned for fills
@@ -34,6 +36,7 @@ class Node:
             return {"prov": self.id, "key": self.key, "payload": self.payload, "extract": self.extract,
                     "children": [c.to_obj() for c in self.children]}
         return {"comp": self.id, "cname": self.cname, "root": self.root, "vis": list(self.vis), "inj": list(self.inj),
+                "inj2": list(self.inj2), "registered": self.registered,
                 "results": self.results, "children": [c.to_obj() for c in self.children]}
 
 
@@ -125,11 +128,21 @@ class Recorder:
                                     extract=context.get("_DJANGO_COMPONENTS_GEN_FILL", None) is not None)
             return o["setp"](context, key, provided_kwargs)
 
+        def ensure_comp(rid, context):
+            """node of the component render `rid`, created (under whatever is being rendered now) at its first inject() or
+            when it registers, whichever comes first"""
+            node = rec.nodes.get(rid)
+            if node is None:
+                vis = sorted({v for k, v in context.flatten().items() if k.startswith(PREFIX)})
+                root = not context.get(_COMPONENT_CONTEXT_KEY, None)
+                node = Node("comp", rid, root=root, vis=vis, cname=rec.pending_cname)
+                rec.attach(node)
+            return node
+
         def register(context, reference_id):
-            vis = sorted({v for k, v in context.flatten().items() if k.startswith(PREFIX)})
-            root = not context.get(_COMPONENT_CONTEXT_KEY, None)
-            node = Node("comp", reference_id, root=root, vis=vis, cname=rec.pending_cname)
-            rec.attach(node)
+            node = ensure_comp(reference_id, context)
+            vis = node.vis
+            node.registered = True
             try:
                 r = o["reg"](context, reference_id)
             except BaseException:
@@ -148,7 +161,7 @@ class Recorder:
             return r
 
         def inject(self, key, default=None):
-            rid, pid = None, None
+            rid, pid, ctx = None, None, None
             try:
                 rid = self.id
                 ctx = self.input.context
@@ -156,7 +169,7 @@ class Recorder:
                     pid = ctx[PREFIX + key]
             except Exception:
                 pass
-            node = rec.nodes.get(rid)
+            node = ensure_comp(rid, ctx) if rid is not None else None
             try:
                 r = o["inject"](self, key, default)
             except BaseException as e:
@@ -164,14 +177,14 @@ class Recorder:
                     rec.log(("CInject", rid, pid), raised=isinstance(e, KeyError))
                 if node is not None:
                     if pid is not None:
-                        node.inj.append(pid)
+                        (node.inj2 if node.registered else node.inj).append(pid)
                     node.results.append((key, type(e).__name__ if isinstance(e, KeyError) else "other:" + type(e).__name__, pid))
                 raise
             if pid is not None:
                 rec.log(("CInject", rid, pid))
             if node is not None:
                 if pid is not None:
-                    node.inj.append(pid)
+                    (node.inj2 if node.registered else node.inj).append(pid)
                     fields = dict(r._asdict()) if hasattr(r, "_asdict") else {"?": repr(r)}
                     node.results.append((key, "hit", fields, pid))
                 else:
@@ -280,10 +293,11 @@ class PyRef:
     Result: ("ok", text, tree) or ("err", kind, None); tree nodes:
       ("prov", key, {field: value}, children) | ("comp", cname, [inject results], children)"""
 
-    def __init__(self, prog):
+    def __init__(self, prog, rehook=False):
         self.lib = dict(prog["lib"])
         self.mode = prog["mode"]
         self.prog = prog
+        self.rehook = rehook     # every component injects its keys once more (with a default) when its template is rendered
 
     # -- values ---------------------------------------------------------------------------------
     @staticmethod
@@ -480,6 +494,11 @@ class PyRef:
             node = ["comp", t[1], injects, []]
             self.partial.append(node)
             data = self.eval_data(cd["data"], kwv, stk, injects)
+            if self.rehook:
+                for _, d in cd["data"]:
+                    if d[0] == "inject":
+                        ok, rec = _lookup_list(d[1], stk)
+                        injects.append((d[1], "hit", dict(rec)) if ok else (d[1], "default", None))
             iso = t[3] or self.mode == "isolated"
             cst = {"loc": data, "out": [] if iso else st["loc"] + st["out"], "cur": {"cname": t[1], "fills": fills, "iso": iso}}
             text, nodes = self.rl(stk, cst, cd["tpl"], depth + 1)
@@ -587,7 +606,8 @@ def c_tree(nodes):
         if n.kind == "prov":
             out.append("Prov %d%%N %s" % (idnum(n.id), c_tree(n.children)))
         else:
-            out.append("Comp %s %d%%N %s %s %s" % ("true" if n.root else "false", idnum(n.id), c_ids(n.vis), c_ids(n.inj), c_tree(n.children)))
+            out.append("Comp %s %d%%N %s %s %s %s" % ("true" if n.root else "false", idnum(n.id), c_ids(n.vis), c_ids(n.inj), c_ids(n.inj2),
+                                                      c_tree(n.children)))
     return "[%s]" % "; ".join(out)
 
 
